@@ -50,11 +50,21 @@ class S3Flow(Engine):
         return super().opaque_ext(name, args, kwargs, st, node)
 
     def new_key(self, st: State, node):
-        self.close_key(st, node)
+        # keys may be produced in one stage (map/comprehension) and filtered in a later one: the record of a key starts
+        # when it is first tested or kept, not when it is read
         self.count('key')
-        st.mon['s3key'] = ((), False)
         st.serial += 1
         return StrV(('s3key',), st.serial)
+
+    def _record_for(self, st, key):
+        """the (sym, tests, kept) record of *key*; a different key closes the previous record"""
+        cur = st.mon.get('s3key')
+        if cur is None or st.mon.get('ref:s3cur') != key.sym:
+            self.close_key(st, None)
+            cur = (key.sym, (), False)
+            st.mon['s3key'] = (0, (), False)
+            st.mon['ref:s3cur'] = key.sym          # kept apart: string identities are not part of the state key
+        return (key.sym, cur[1], cur[2]) if cur[0] == 0 else cur
 
     def model_getitem(self, c: Val, i: Val, st: State, node):
         if isinstance(c, ExtV) and c.name == PAGE and isinstance(i, Const) and i.v == 'Contents':
@@ -97,33 +107,30 @@ class S3Flow(Engine):
         return isinstance(v, StrV) and isinstance(v.origin, tuple) and v.origin and v.origin[0] == 's3key'
 
     def on_str_test(self, st, node, recv=None, name=None, args=(), taken=None):
-        cur = st.mon.get('s3key')
-        if self.is_key(recv) and cur is not None:
+        if self.is_key(recv):
+            cur = self._record_for(st, recv)
             a = args[0] if args else None
             what = 'suffix' if isinstance(a, StrV) and a.origin == ('arg', 'suffix') else self.describe(a, st) if a is not None else '?'
-            st.mon['s3key'] = (cur[0] + ((name, what, taken),), cur[1])
-        elif self.is_key(recv):
-            self.find_('ALL-PAGES', st, node, 'the only filter is endswith(suffix)', 'a key is tested outside its own iteration')
+            st.mon['s3key'] = (0, cur[1] + ((name, what, taken),), cur[2])
 
-    def keep(self, st, node):
-        cur = st.mon.get('s3key')
-        if cur is None:
-            return
-        if cur[0] != GOOD:
+    def keep(self, st, node, key):
+        cur = self._record_for(st, key)
+        if cur[1] != GOOD:
             self.find_('ALL-PAGES', st, node, 'the only filter is endswith(suffix)',
-                       f'a key is kept after the tests {list(cur[0])}: not exactly "key.endswith(suffix) is true"')
-        st.mon['s3key'] = (cur[0], True)
+                       f'a key is kept after the tests {list(cur[1])}: not exactly "key.endswith(suffix) is true"')
+        st.mon['s3key'] = (0, cur[1], True)
 
     def close_key(self, st, node):
         cur = st.mon.get('s3key')
-        if cur is not None and cur[0] == GOOD and not cur[1]:
+        if cur is not None and cur[1] == GOOD and not cur[2]:
             self.find_('ALL-PAGES', st, node, 'the only filter is endswith(suffix)', 'a key that ends with the suffix is dropped')
         st.mon['s3key'] = None
+        st.mon['ref:s3cur'] = None
 
     def on_list_append(self, st, node, list=None, value=None):
         if self.is_key(value):
             self.count('append')
-            self.keep(st, node)
+            self.keep(st, node, value)
         elif isinstance(value, Ref) and value.kind == 'list':
             pass            # extend with a list of kept keys: decided on the returned list
         elif isinstance(list, Ref) and st.mon.get('s3result') is None:
@@ -131,11 +138,14 @@ class S3Flow(Engine):
 
     def on_comp_yield(self, st, node, value=None):
         if self.is_key(value):
-            self.count('append')
-            self.keep(st, node)
+            cur = st.mon.get('s3key')
+            if cur is not None and st.mon.get('ref:s3cur') == value.sym or any(getattr(g, 'ifs', None) for g in getattr(node, 'generators', [])):
+                self.count('append')
+                self.keep(st, node, value)         # yielded by a filtering stage (or after its test)
+            # an unfiltered stage that merely passes keys on (map / plain comprehension) decides nothing
         elif st.mon.get('s3key') is not None:
             cur = st.mon['s3key']
-            if cur[0] == GOOD:
+            if cur[1] == GOOD:
                 self.find_('ALL-PAGES', st, node, 'returns the accumulated list', f'{norm(node)} collects {self.describe(value, st)} instead of the key')
 
     def on_comp_skip(self, st, node, gen=None):
@@ -143,8 +153,7 @@ class S3Flow(Engine):
 
     def loop_iter_start(self, st, depth, spec, count):
         kind = getattr(spec, 's3', None)
-        if kind is not None:
-            self.close_key(st, None)
+        self.close_key(st, None)          # a key is tested and kept (or not) within one iteration of whatever loop handles it
         if kind == 'pages':
             if st.mon.get('s3contents') == 'got':
                 self.find_('ALL-PAGES', st, None, 'every page and every key is visited', 'the Contents of a page are obtained but not iterated')
